@@ -43,14 +43,17 @@ Pool(ty) ==
      Let("B", UCall("FM", <<A>>)), Do(UCall("FM", <<A>>)), Let("A", UCall("FM", <<At(Tt, 0)>>)),
      Forall("E", Tt, "auto", <<Let("E", Bv)>>),
      Forall("E", Tt, "auto", IF Mut(ty, V("E")) = <<>> THEN <<Nop>> ELSE Mut(ty, V("E"))),
-     For("K", I(1), I(2), NoExpr, "auto", <<Let("C", A), Let("D", UCall("FM", <<V("C")>>))>>)
+     For("K", I(1), I(2), NoExpr, "auto", <<Let("C", A), Let("D", UCall("FM", <<V("C")>>))>>),
+     Forall("E", Tt, "auto", <<Let("E", Fresh(ty)), Let("C", V("E")), Let("E", V("C")), Let("D", V("E"))>>)
   >> \o Mut(ty, A) \o Mut(ty, Bv) \o Mut(ty, At(Tt, 0))
   \o (IF ty \in {"int", "str"} THEN << Let("U", Call("tup", <<A, Bv>>)), Do(SetAt(V("U"), 1, Bv)), Let("A", Item(V("U"), 2)), Let("B", Item(V("U"), 1)) >> ELSE << >>)
   \o (IF ty = "str" THEN << For("K", I(1), I(2), NoExpr, "auto", <<Let("C", Mem(Str("lit"), "concat", <<A>>)), Let("D", Bin("+", Str("x"), A)), Let("G", Bin("+", A, Str("y")))>>),
                             For("K", I(1), I(2), NoExpr, "auto", <<Let("C", Bin("+", Bin("+", A, Bv), A))>>) >> ELSE << >>)
-  \o (IF ty = "int" THEN << For("K", I(1), I(3), NoExpr, "auto", <<Let("C", Bin("+", I(1), A)), Let("A", Bin("+", Bin("*", A, I(2)), Bv))>>) >> ELSE << >>)
+  \o (IF ty = "int" THEN << For("K", I(1), I(3), NoExpr, "auto", <<Let("C", Bin("+", I(1), A)), Let("A", Bin("+", Bin("*", A, I(2)), Bv))>>),
+                            Forall("E", Tt, "auto", <<Let("E", Bin("+", V("E"), I(1))), Let("C", Bin("+", V("C"), V("E"))), Let("D", V("E"))>>) >> ELSE << >>)
+  \o (IF ty = "str" THEN << Forall("E", Tt, "auto", <<Let("E", Bin("+", V("E"), Str("!"))), Let("C", Bin("+", V("C"), V("E"))), Let("D", V("E"))>>) >> ELSE << >>)
 
-Prelude(ty) == << FuncFor(ty), Let("A", Init0(ty)), Let("B", Fresh(ty)), Let("T", Call("tab", <<I(2), Init0(ty)>>)) >>
+Prelude(ty) == << FuncFor(ty), Let("A", Init0(ty)), Let("B", Fresh(ty)), Let("T", Call("tab", <<I(2), Init0(ty)>>)), Let("C", Init0(ty)) >>
                \o (IF ty \in {"int", "str"} THEN <<Let("U", Call("tup", <<Init0(ty), Fresh(ty)>>))>> ELSE <<>>)
 
 RECURSIVE Seqs(_, _)
